@@ -555,6 +555,13 @@ def skeleton(F, fns):
                     ty = re.sub(r"^(&(mut )?)+", "", flow.strip_lifetimes(b.local_ty(ap["l"]))) if ap is not None and not ap["p"] else "?"
                     if re.match(r"^[ui](8|16|32|64|128|size)$|^bool$", ty):
                         cnt[("cmp", "eq", ty)] += 1
+                if re.search(r"cmp::Ord::cmp$", n) and len(st["args"]) == 2:
+                    # a three-way `match a.cmp(&b)` decides what `a >= b` followed by `a == b` decides
+                    ap = op_place(st["args"][0])
+                    ty = re.sub(r"^(&(mut )?)+", "", flow.strip_lifetimes(b.local_ty(ap["l"]))) if ap is not None and not ap["p"] else "?"
+                    if re.match(r"^[ui](8|16|32|64|128)$", ty):
+                        cnt[("cmp", "eq", ty)] += 1
+                        cnt[("cmp", "ord", ty)] += 1
                 if re.search(r"ops::Index(Mut)?>?::index(_mut)?$|ops::index::Index(Mut)?::index(_mut)?$", n) and len(st["args"]) == 2:
                     ap = op_place(st["args"][1])
                     ty = b.local_ty(ap["l"]) if ap is not None and not ap["p"] else ""
